@@ -1127,8 +1127,59 @@ func nameProfileErrorHandled(c *core.Ctx) {
 					}
 				}
 			}
+			if tested && f.Signature.Results().Len() == 1 {
+				// second half: where the profile failed, the function does not return the failed call's (empty) result or a constant ""
+				isErr := func(v ssa.Value) bool { return v == errv }
+				okEdge := func(from *ssa.BasicBlock, to *ssa.BasicBlock) bool {
+					// the edge from -> to is taken only with err == nil
+					if ifi, isIf := from.Instrs[len(from.Instrs)-1].(*ssa.If); isIf {
+						if bo, isB := ifi.Cond.(*ssa.BinOp); isB && (isErr(bo.X) && core.IsNilConst(bo.Y) || isErr(bo.Y) && core.IsNilConst(bo.X)) {
+							nilSucc := 0
+							if bo.Op == token.NEQ {
+								nilSucc = 1
+							}
+							if from.Succs[nilSucc] == to && from.Succs[1-nilSucc] != to {
+								return true
+							}
+						}
+					}
+					return core.Dominated(from.Instrs[len(from.Instrs)-1], core.IsNilFact(isErr))
+				}
+				var failedResult func(v ssa.Value, at ssa.Instruction, seen map[ssa.Value]bool) bool
+				failedResult = func(v ssa.Value, at ssa.Instruction, seen map[ssa.Value]bool) bool {
+					if seen[v] {
+						return false
+					}
+					seen[v] = true
+					switch x := v.(type) {
+					case *ssa.Extract:
+						return x.Tuple == ssa.Value(call) && x.Index == 0 && !core.Dominated(at, core.IsNilFact(isErr))
+					case *ssa.Const:
+						return x.Value != nil && x.Value.ExactString() == `""` && core.Dominated(at, core.NonNilFact(isErr))
+					case *ssa.Phi:
+						for k, e := range x.Edges {
+							pred := x.Block().Preds[k]
+							if ex, isEx := e.(*ssa.Extract); isEx && ex.Tuple == ssa.Value(call) && ex.Index == 0 {
+								if !okEdge(pred, x.Block()) {
+									return true
+								}
+								continue
+							}
+							if failedResult(e, pred.Instrs[len(pred.Instrs)-1], seen) {
+								return true
+							}
+						}
+					}
+					return false
+				}
+				core.Instrs(f, func(j ssa.Instruction) {
+					if r, isR := j.(*ssa.Return); isR && len(r.Results) == 1 && failedResult(r.Results[0], r, map[ssa.Value]bool{}) {
+						tested = false
+					}
+				})
+			}
 			c.Check(tested, "name-profile-error-handled@"+fname(f), posOf(i), "the error of the text profile decides what is returned",
-				"the error of the PRECIS profile is dropped: for a name with a character the profile rejects (a typographic apostrophe, a dash, an emoji) the function hands back the empty string — the DNS-SD responder refuses the empty instance name and Start() exits the process, the accessory is never advertised")
+				"the error of the PRECIS profile is dropped (or tested and the failed call's empty result returned all the same): for a name with a character the profile rejects (a typographic apostrophe, a dash, an emoji) the function hands back the empty string — the DNS-SD responder refuses the empty instance name and Start() exits the process, the accessory is never advertised")
 		})
 	}
 	if n == 0 {
